@@ -8,6 +8,7 @@ From Coq Require Import List ZArith QArith Qminmax Qabs Bool Lia Lqa.
 Require Import CV.Quad.
 Import ListNotations.
 Open Scope Q_scope.
+Arguments bip_like : simpl never.
 
 (* ------------------------------------------------------------------ generic list lemmas *)
 
@@ -175,13 +176,13 @@ Lemma add_net_model_scaled : forall k m pl eps s' s n' n, sys_scaled k s' s -> n
 Proof.
   intros k m pl eps s' s n' n Hs (Hp & Hw). unfold add_net_model. rewrite Hp. destruct m.
   - apply apply_ops_scaled; auto. apply b2b_ops_scaled; auto.
-  - destruct (length (n_pins n) <=? 2)%nat.
+  - destruct (bip_like (n_pins n)).
     + apply apply_ops_scaled; auto. apply bipoint_pl_ops_scaled; auto.
     + destruct (add_cell_scaled k (star_pos (n_pins n) pl) s' s Hs) as (Hc & Hs1).
       destruct (add_cell (star_pos (n_pins n) pl) s') as [c' s1']. destruct (add_cell (star_pos (n_pins n) pl) s) as [c s1].
       simpl in *. subst c'. apply apply_ops_scaled; auto. apply star_pl_ops_scaled; auto.
   - apply apply_ops_scaled; auto. apply clique_pl_ops_scaled; auto.
-  - destruct (length (n_pins n) <=? 2)%nat.
+  - destruct (bip_like (n_pins n)).
     + apply apply_ops_scaled; auto. apply bipoint_pl_ops_scaled; auto.
     + destruct (add_cell_scaled k (star_pos (n_pins n) pl) s' s Hs) as (Hc & Hs1).
       destruct (add_cell (star_pos (n_pins n) pl) s') as [c' s1']. destruct (add_cell (star_pos (n_pins n) pl) s) as [c s1].
@@ -191,7 +192,7 @@ Qed.
 Lemma add_star_scaled : forall k s' s n' n, sys_scaled k s' s -> net_scaled k n' n -> sys_scaled k (add_star n' s') (add_star n s).
 Proof.
   intros k s' s n' n Hs (Hp & Hw). unfold add_star, add_bipoint. rewrite Hp.
-  destruct (length (n_pins n) <=? 2)%nat.
+  destruct (bip_like (n_pins n)).
   - apply apply_ops_scaled; auto. apply bipoint_ops_scaled; auto.
   - destruct (add_cell_scaled k 0 s' s Hs) as (Hc & Hs1).
     destruct (add_cell 0 s') as [c' s1']. destruct (add_cell 0 s) as [c s1].
@@ -497,17 +498,17 @@ Proof.
   intros nm m pl eps s n Hb Hp. pose proof Hb as (_ & Hn). pose proof (pins_ok_mono _ _ _ Hn Hp) as Hp'.
   unfold add_net_model. destruct m.
   - apply build_apply_ops; auto. apply b2b_ops_ok; auto.
-  - destruct (length (n_pins n) <=? 2)%nat; [apply build_apply_ops; auto; apply bipoint_pl_ops_ok; auto|].
+  - destruct (bip_like (n_pins n)); [apply build_apply_ops; auto; apply bipoint_pl_ops_ok; auto|].
     apply build_with_cell; auto. intros c Hc. apply star_pl_ops_ok; [eapply pins_ok_mono; [|eauto]|]; lia.
   - apply build_apply_ops; auto. apply clique_pl_ops_ok; auto.
-  - destruct (length (n_pins n) <=? 2)%nat; [apply build_apply_ops; auto; apply bipoint_pl_ops_ok; auto|].
+  - destruct (bip_like (n_pins n)); [apply build_apply_ops; auto; apply bipoint_pl_ops_ok; auto|].
     apply build_with_cell; auto. intros c Hc. apply lightstar_ops_ok; [eapply pins_ok_mono; [|eauto]|]; lia.
 Qed.
 
 Lemma add_star_inv : forall nm s n, build_inv nm s -> pins_ok (nm_cells nm) (n_pins n) -> build_inv nm (add_star n s).
 Proof.
   intros nm s n Hb Hp. pose proof Hb as (_ & Hn). pose proof (pins_ok_mono _ _ _ Hn Hp) as Hp'. unfold add_star, add_bipoint.
-  destruct (length (n_pins n) <=? 2)%nat; [apply build_apply_ops; auto; apply bipoint_ops_ok; auto|].
+  destruct (bip_like (n_pins n)); [apply build_apply_ops; auto; apply bipoint_ops_ok; auto|].
   apply build_with_cell; auto. intros c Hc. apply star_ops_ok; [eapply pins_ok_mono; [|eauto]|]; lia.
 Qed.
 
@@ -886,16 +887,16 @@ Fixpoint star0_ops_from (k : nat) (nets : list net) : list pinop :=
   match nets with
   | [] => []
   | n :: r =>
-    if (length (n_pins n) <=? 2)%nat then bipoint_ops (n_weight n) (n_pins n) ++ star0_ops_from k r
+    if bip_like (n_pins n) then bipoint_ops (n_weight n) (n_pins n) ++ star0_ops_from k r
     else star_ops (n_weight n) (n_pins n) (Z.of_nat k) ++ star0_ops_from (S k) r
   end.
 Fixpoint n_stars (nets : list net) : nat :=
-  match nets with [] => O | n :: r => ((if (length (n_pins n) <=? 2)%nat then 0 else 1) + n_stars r)%nat end.
+  match nets with [] => O | n :: r => ((if bip_like (n_pins n) then 0 else 1) + n_stars r)%nat end.
 
 Lemma fold_add_star_size : forall nets s, mat_size (fold_left (fun s n => add_star n s) nets s) = (mat_size s + n_stars nets)%nat.
 Proof.
   induction nets as [|n r IH]; intros s; simpl; [lia|]. rewrite IH. unfold add_star, add_bipoint.
-  destruct (length (n_pins n) <=? 2)%nat.
+  destruct (bip_like (n_pins n)).
   - rewrite apply_ops_size. lia.
   - unfold add_cell. rewrite apply_ops_size. unfold mat_size; simpl. rewrite app_length; simpl. lia.
 Qed.
@@ -906,7 +907,7 @@ Lemma lin_fold_add_star : forall nc nets s h x,
 Proof.
   intros nc nets. induction nets as [|n r IH]; intros s h x Hok Hn Hh; simpl in *; [ring|].
   assert (Hp : pins_ok (mat_size s) (n_pins n)) by (eapply pins_ok_mono; [|apply Hok]; eauto).
-  unfold add_star at 2, add_bipoint. destruct (length (n_pins n) <=? 2)%nat.
+  unfold add_star at 2, add_bipoint. destruct (bip_like (n_pins n)).
   - rewrite IH; auto; try (rewrite apply_ops_size; lia).
     rewrite lin_apply_ops, apply_ops_size, ops_grad_app by (try apply bipoint_ops_ok; auto; lia). ring.
   - assert (Hs1 : mat_size (snd (add_cell 0 s)) = S (mat_size s)) by (unfold add_cell, mat_size; simpl; rewrite app_length; simpl; lia).
@@ -924,7 +925,7 @@ Lemma star0_ops_ok : forall nc nets k, (forall n, In n nets -> pins_ok nc (n_pin
 Proof.
   intros nc nets. induction nets as [|n r IH]; intros k Hok Hk; simpl; [constructor|].
   assert (Hp : pins_ok nc (n_pins n)) by (apply Hok; simpl; auto).
-  destruct (length (n_pins n) <=? 2)%nat; apply Forall_app; split.
+  destruct (bip_like (n_pins n)); apply Forall_app; split.
   - apply bipoint_ops_ok. eapply pins_ok_mono; [|eauto]. lia.
   - apply IH; auto. intros; apply Hok; simpl; auto.
   - apply star_ops_ok; [eapply pins_ok_mono; [|eauto]|]; lia.
@@ -948,7 +949,7 @@ Qed.
 Lemma star0_energy : forall nets k x, ops_energy (star0_ops_from k nets) x == star_energy_from k nets x.
 Proof.
   induction nets as [|n r IH]; intros k x; simpl; [reflexivity|].
-  destruct (length (n_pins n) <=? 2)%nat; rewrite ops_energy_app, IH.
+  destruct (bip_like (n_pins n)); rewrite ops_energy_app, IH.
   - destruct (n_pins n) as [|p0 [|p1 ?]]; simpl; try ring. unfold op_energy, pin_at, pin_position; simpl. ring.
   - rewrite star_ops_energy. reflexivity.
 Qed.
@@ -962,12 +963,17 @@ Proof.
   induction pins as [|p r IH]; simpl; [reflexivity|]. rewrite IH. unfold op_curv; simpl. rewrite hat_star, hat_flat. ring.
 Qed.
 
+Lemma single_cell_flat : forall pins, single_cell (map (fun p : Z * Q => (fst p, 0)) pins) = single_cell pins.
+Proof. intros [|p r]; simpl; [reflexivity|]. induction r as [|q r IH]; simpl; [reflexivity|]. rewrite IH. reflexivity. Qed.
+Lemma bip_like_flat : forall pins, bip_like (map (fun p : Z * Q => (fst p, 0)) pins) = bip_like pins.
+Proof. intros. unfold bip_like. rewrite map_length, single_cell_flat. reflexivity. Qed.
+
 Lemma star0_curv : forall nets k h,
   ops_curv (star0_ops_from k nets) h ==
   star_energy_from k (map (fun n => mkNet (n_weight n) (map (fun p : Z * Q => (fst p, 0)) (n_pins n))) nets) h.
 Proof.
-  induction nets as [|n r IH]; intros k h; simpl; [reflexivity|]. rewrite map_length.
-  destruct (length (n_pins n) <=? 2)%nat; rewrite ops_curv_app, IH.
+  induction nets as [|n r IH]; intros k h; simpl; [reflexivity|]. rewrite ?map_length, bip_like_flat.
+  destruct (bip_like (n_pins n)); rewrite ops_curv_app, IH.
   - destruct (n_pins n) as [|p0 [|p1 ?]]; simpl; try ring. unfold op_curv; simpl. rewrite !hat_flat. ring.
   - rewrite star_ops_curv. reflexivity.
 Qed.
@@ -976,7 +982,7 @@ Lemma star0_weights : forall nets k, (forall n, In n nets -> 0 <= n_weight n) ->
 Proof.
   induction nets as [|n r IH]; intros k H o Ho; simpl in Ho; [contradiction|].
   assert (Hw : 0 <= n_weight n) by (apply H; simpl; auto).
-  destruct (length (n_pins n) <=? 2)%nat; apply in_app_or in Ho; destruct Ho as [Ho|Ho]; try (eapply IH; eauto; intros; apply H; simpl; auto).
+  destruct (bip_like (n_pins n)); apply in_app_or in Ho; destruct Ho as [Ho|Ho]; try (eapply IH; eauto; intros; apply H; simpl; auto).
   - destruct (n_pins n) as [|p0 [|p1 ?]]; simpl in Ho; try contradiction. destruct Ho as [E|[]]. subst o; auto.
   - unfold star_ops in Ho. apply in_map_iff in Ho. destruct Ho as (p & E & _). subst o; simpl.
     unfold Qdiv. apply Qmult_le_0_compat; auto. apply Qinv_le_0_compat. unfold Qnat. unfold Qle; simpl. lia.
@@ -1188,4 +1194,177 @@ Proof.
   exists wit_cells, wit_offs, (1 # 2), [7], [-3]. split.
   - apply solves_rows. intros [|i] Hi; [vm_compute; reflexivity|vm_compute in Hi; lia].
   - intros H. vm_compute in H. apply H. reflexivity.
+Qed.
+
+(* ------------------------------------------------------------------ normalize() (finding F22) over Q *)
+Lemma Qpow2_nz : forall z, ~ Qpow2 z == 0.
+Proof.
+  intros z. unfold Qpow2. destruct (0 <=? z)%Z eqn:E.
+  - unfold Qeq; simpl. pose proof (Z.pow_pos_nonneg 2 z). lia.
+  - unfold Qeq; simpl. lia.
+Qed.
+
+Lemma Forall2_map_l_same : forall {A B} (R : B -> A -> Prop) (f : A -> B) l, (forall a, In a l -> R (f a) a) -> Forall2 R (map f l) l.
+Proof. induction l; simpl; intros; constructor; auto. Qed.
+
+Lemma scale_sys_scaled : forall k s, sys_scaled k (scale_sys k s) s.
+Proof.
+  intros k s. unfold sys_scaled, scale_sys; simpl. repeat split; auto.
+  - apply Forall2_map_l_same. intros t _. unfold trip_scaled; simpl. repeat split; reflexivity.
+  - unfold vec_scaled. apply Forall2_map_l_same. intros a _. reflexivity.
+Qed.
+
+(* normalize() does not change the solutions of the system handed to Eigen *)
+Lemma normalize_solution_set : forall s, sys_inv s -> forall x, solves (solver_input s) x <-> solves (finalize s) x.
+Proof.
+  intros s Hs x. unfold solver_input, normalize. destruct (norm_exp s) as [e|]; [|reflexivity].
+  apply (solves_finalize_scaled (Qpow2 (- e))); [apply Qpow2_nz|apply scale_sys_scaled|exact Hs].
+Qed.
+
+(* ------------------------------------------------------------------ nets on a single cell (finding F25) *)
+Lemma add_pin_self : forall o s, p_c1 o = p_c2 o -> add_pin o s = s.
+Proof. intros o s H. unfold add_pin. rewrite H, Z.eqb_refl. reflexivity. Qed.
+
+Lemma apply_ops_self : forall ops s, Forall (fun o => p_c1 o = p_c2 o) ops -> apply_ops ops s = s.
+Proof.
+  intros ops s H. revert s. unfold apply_ops. induction H as [|o r Ho H IH]; intros s; simpl; [reflexivity|].
+  rewrite add_pin_self by exact Ho. apply IH.
+Qed.
+
+Lemma single_cell_spec : forall pins, single_cell pins = true -> forall p q, In p pins -> In q pins -> fst p = fst q.
+Proof.
+  intros [|a r] H p q Hp Hq; [destruct Hp|]. simpl in H. rewrite forallb_forall in H.
+  assert (E : forall x, In x (a :: r) -> fst x = fst a).
+  { intros x [<-|Hx]; [reflexivity|]. apply Z.eqb_eq. apply H. exact Hx. }
+  rewrite (E p Hp), (E q Hq). reflexivity.
+Qed.
+
+Lemma pair_ops_in : forall f pins o, In o (pair_ops f pins) -> exists p q, In p pins /\ In q pins /\ o = f p q.
+Proof.
+  intros f pins. induction pins as [|a r IH]; intros o H; simpl in H; [destruct H|].
+  apply in_app_or in H. destruct H as [H|H].
+  - apply in_map_iff in H. destruct H as (q & E & Hq). exists a, q. simpl; auto.
+  - destruct (IH o H) as (p & q & Hp & Hq & E). exists p, q. simpl; auto.
+Qed.
+
+(* the extreme pin of a non-empty net is one of its pins *)
+Definition cell_in (pins : list (Z * Q)) (best : option (nat * Z * Q * Q)) : Prop :=
+  exists i c o ps, best = Some (i, c, o, ps) /\ exists p, In p pins /\ c = fst p.
+
+Lemma fold_cell_in : forall step pins (l : list (nat * (Z * Q))) best,
+  (forall b ip, In (snd ip) pins -> cell_in pins b -> cell_in pins (step b ip)) ->
+  (forall ip, In ip l -> In (snd ip) pins) -> cell_in pins best -> cell_in pins (fold_left step l best).
+Proof.
+  intros step pins l. induction l as [|ip l IH]; intros best Hs Hl Hb; simpl; [exact Hb|].
+  apply IH; auto. - intros; apply Hl; simpl; auto. - apply Hs; auto. apply Hl; simpl; auto.
+Qed.
+
+Lemma min_step_cell_in : forall pl pins b ip, In (snd ip) pins -> cell_in pins b -> cell_in pins (min_pin_step pl b ip).
+Proof.
+  intros pl pins b ip Hi (i & c & o & ps & -> & Hc). unfold min_pin_step.
+  destruct (Qlt_bool _ _); [|exists i, c, o, ps; auto]. do 4 eexists. split; [reflexivity|]. exists (snd ip); auto.
+Qed.
+Lemma max_step_cell_in : forall pl pins b ip, In (snd ip) pins -> cell_in pins b -> cell_in pins (max_pin_step pl b ip).
+Proof.
+  intros pl pins b ip Hi (i & c & o & ps & -> & Hc). unfold max_pin_step.
+  destruct (Qlt_bool _ _); [|exists i, c, o, ps; auto]. do 4 eexists. split; [reflexivity|]. exists (snd ip); auto.
+Qed.
+
+Lemma indexed_cons : forall {A} (a : A) l, exists r, indexed (a :: l) = (O, a) :: r /\ forall ip, In ip r -> In (snd ip) l.
+Proof.
+  intros A a l. unfold indexed. simpl. eexists. split; [reflexivity|]. intros [i x] H. simpl. eapply in_combine_r; eauto.
+Qed.
+
+Lemma min_pin_cell : forall pins pl, pins <> [] -> exists i c o ps, min_pin pins pl = (i, c, o, ps) /\ exists p, In p pins /\ c = fst p.
+Proof.
+  intros [|a l] pl H; [congruence|]. unfold min_pin. destruct (indexed_cons a l) as (r & -> & Hr). simpl.
+  assert (C : cell_in (a :: l) (fold_left (min_pin_step pl) r (Some (O, fst a, snd a, pin_position a pl)))).
+  { apply fold_cell_in. - intros; apply min_step_cell_in; auto. - intros ip Hip. right. apply Hr; auto.
+    - do 4 eexists. split; [reflexivity|]. exists a; simpl; auto. }
+  destruct C as (i & c & o & ps & -> & Hc). exists i, c, o, ps. auto.
+Qed.
+Lemma max_pin_cell : forall pins pl, pins <> [] -> exists i c o ps, max_pin pins pl = (i, c, o, ps) /\ exists p, In p pins /\ c = fst p.
+Proof.
+  intros [|a l] pl H; [congruence|]. unfold max_pin. destruct (indexed_cons a l) as (r & -> & Hr). simpl.
+  assert (C : cell_in (a :: l) (fold_left (max_pin_step pl) r (Some (O, fst a, snd a, pin_position a pl)))).
+  { apply fold_cell_in. - intros; apply max_step_cell_in; auto. - intros ip Hip. right. apply Hr; auto.
+    - do 4 eexists. split; [reflexivity|]. exists a; simpl; auto. }
+  destruct C as (i & c & o & ps & -> & Hc). exists i, c, o, ps. auto.
+Qed.
+
+Lemma b2b_ops_self : forall w pins pl eps, single_cell pins = true -> Forall (fun o => p_c1 o = p_c2 o) (b2b_ops w pins pl eps).
+Proof.
+  intros w pins pl eps H. destruct pins as [|a l] eqn:E; [constructor|]. rewrite <- E in *.
+  assert (N : pins <> []) by (rewrite E; discriminate).
+  unfold b2b_ops. destruct (min_pin_cell pins pl N) as (i1 & c1 & o1 & p1 & -> & q1 & Hq1 & ->).
+  destruct (max_pin_cell pins pl N) as (i2 & c2 & o2 & p2 & -> & q2 & Hq2 & ->).
+  apply Forall_forall. intros o Ho. apply in_flat_map in Ho. destruct Ho as ([i p] & Hip & Ho). simpl in Ho.
+  apply in_indexed in Hip.
+  destruct (i =? i1)%nat; [destruct Ho|]. destruct Ho as [<-|Ho]; [simpl; apply (single_cell_spec _ H); auto|].
+  destruct (i =? i2)%nat; [destruct Ho|]. destruct Ho as [<-|[]]. simpl; apply (single_cell_spec _ H); auto.
+Qed.
+
+Lemma pair_ops_self : forall f pins, single_cell pins = true -> (forall p q, p_c1 (f p q) = fst p /\ p_c2 (f p q) = fst q) ->
+  Forall (fun o => p_c1 o = p_c2 o) (pair_ops f pins).
+Proof.
+  intros f pins H Hf. apply Forall_forall. intros o Ho. destruct (pair_ops_in _ _ _ Ho) as (p & q & Hp & Hq & ->).
+  destruct (Hf p q) as [-> ->]. apply (single_cell_spec _ H); auto.
+Qed.
+
+Lemma bipoint_pl_ops_self : forall w pins pl eps, single_cell pins = true -> Forall (fun o => p_c1 o = p_c2 o) (bipoint_pl_ops w pins pl eps).
+Proof.
+  intros w pins pl eps H. unfold bipoint_pl_ops. destruct pins as [|p0 [|p1 r]]; constructor; [|constructor].
+  simpl. apply (single_cell_spec _ H); simpl; auto.
+Qed.
+Lemma bipoint_ops_self : forall w pins, single_cell pins = true -> Forall (fun o => p_c1 o = p_c2 o) (bipoint_ops w pins).
+Proof.
+  intros w pins H. unfold bipoint_ops. destruct pins as [|p0 [|p1 r]]; constructor; [|constructor].
+  simpl. apply (single_cell_spec _ H); simpl; auto.
+Qed.
+
+Lemma bip_like_single : forall pins, single_cell pins = true -> bip_like pins = true.
+Proof. intros pins H. unfold bip_like. rewrite H. apply orb_true_r. Qed.
+
+(* a net whose pins are all on one cell adds nothing to the system, in every model *)
+Lemma single_cell_net_noop : forall n, single_cell (n_pins n) = true ->
+  (forall m pl eps s, add_net_model m pl eps s n = s) /\ (forall s, add_star n s = s) /\
+  (forall s, add_bipoint n s = s) /\ (forall s, add_clique n s = s).
+Proof.
+  intros n H. split; [|split; [|split]].
+  - intros m pl eps s. unfold add_net_model. rewrite (bip_like_single _ H). destruct m; apply apply_ops_self.
+    + apply b2b_ops_self; exact H.
+    + apply bipoint_pl_ops_self; exact H.
+    + unfold clique_pl_ops. apply pair_ops_self; [exact H|]. intros; simpl; auto.
+    + apply bipoint_pl_ops_self; exact H.
+  - intros s. unfold add_star. rewrite (bip_like_single _ H). unfold add_bipoint. apply apply_ops_self. apply bipoint_ops_self; exact H.
+  - intros s. unfold add_bipoint. apply apply_ops_self. apply bipoint_ops_self; exact H.
+  - intros s. unfold add_clique. apply apply_ops_self. unfold clique_ops. apply pair_ops_self; [exact H|]. intros; simpl; auto.
+Qed.
+
+Lemma fold_noop : forall {S N} (f : S -> N -> S) l s, (forall n s, In n l -> f s n = s) -> fold_left f l s = s.
+Proof. induction l; simpl; intros; auto. rewrite H by auto. apply IHl. intros; apply H; auto. Qed.
+
+(* a circuit all of whose nets are such nets: nothing is assembled, finalize() regularises every row *)
+Lemma single_cell_nets_regularised : forall nm, (forall n, In n (nm_nets nm) -> single_cell (n_pins n) = true) ->
+  (forall m pl eps, create m nm pl eps = sys_empty (nm_cells nm)) /\ create_star0 nm = sys_empty (nm_cells nm) /\
+  s_mat (finalize (sys_empty (nm_cells nm))) = reg_trips (repeat false (nm_cells nm)).
+Proof.
+  intros nm H. split; [|split; [|reflexivity]].
+  - intros. unfold create. apply fold_noop. intros n s Hn. apply (single_cell_net_noop n (H n Hn)).
+  - unfold create_star0. apply fold_noop. intros n s Hn. apply (single_cell_net_noop n (H n Hn)).
+Qed.
+
+(* BEFORE the repair: the Star model on one movable cell with two nets on it (pins at -1, 2, -3, 3 and -2, 1, 2; placement 0,
+   epsilon 10): rows 1 (the cell), 2 and 3 (the star points) are marked non-empty, so finalize() regularises row 0 only,
+   and the finalized matrix annihilates (0, 1, 1, 1): it is singular *)
+Definition f25_nm : netmodel :=
+  mkNM 2 [mkNet 1 [(1%Z, -1); (1%Z, 2); (1%Z, -3); (1%Z, 3)]; mkNet 1 [(1%Z, -2); (1%Z, 1); (1%Z, 2)]].
+Lemma star_single_cell_singular_before_repair :
+  s_nz (create_star_old f25_nm [0; 0] 10) = [false; true; true; true] /\
+  (forall i, (i < 4)%nat -> row_sum (Z.of_nat i) (s_mat (finalize (create_star_old f25_nm [0; 0] 10))) [0; 1; 1; 1] == 0) /\
+  create Star f25_nm [0; 0] 10 = sys_empty 2.
+Proof.
+  split; [vm_compute; reflexivity|split].
+  - intros [|[|[|[|i]]]] Hi; try lia; vm_compute; reflexivity.
+  - apply single_cell_nets_regularised. intros n [<-|[<-|[]]]; reflexivity.
 Qed.
